@@ -10,13 +10,19 @@ namespace H2.C04
 open H2 H2.Gen H2.Conn
 
 /-- **enforcement (generated code)**: a DATA frame of flow-controlled length `n` is refused with FlowControlError
-    exactly when it overruns the advertised window; one that fits is never refused -/
+    exactly when it overruns the advertised window; one that fits is never refused.  A frame of length zero overruns
+    nothing, also when a lowered INITIAL_WINDOW_SIZE has the window below zero (RFC 7540 §6.9.1, §6.9.2; before the
+    repair D43 the empty DATA frame that ends a stream was refused there) -/
 theorem C04_consumed (w : WindowManager) (n : Int) :
-    (w.window_consumed n).1 = (if w.current_window_size - n < 0 then .error (.h2 .FlowControlError) else .ok none) ∧
+    (w.window_consumed n).1 = (if 0 < n ∧ w.current_window_size - n < 0 then .error (.h2 .FlowControlError) else .ok none) ∧
     (w.window_consumed n).2 = { w with current_window_size := w.current_window_size - n } := by
   unfold WindowManager.window_consumed
-  simp only [decide_eq_true_eq]
+  simp only [decide_eq_true_eq, Bool.and_eq_true, gt_iff_lt]
   split <;> simp_all
+
+/-- an empty frame is never refused for flow-control reasons, whatever the window -/
+theorem C04_empty_frame_fits (w : WindowManager) : (w.window_consumed 0).1 = .ok none := by
+  rw [(C04_consumed w 0).1]; simp
 
 /-- FlowControlError carries FLOW_CONTROL_ERROR -/
 theorem C04_code : ExcClass.FlowControlError.classCode = some 3 := by decide
